@@ -131,6 +131,7 @@ struct Counters {
     full_adds: u32,
     col_queries: u32,
     sub_rows: u32,
+    dense_only_queries: u32,
 }
 
 fn both<R: PartialEq + std::fmt::Debug>(name: &str, fd: impl FnOnce() -> R, fs: impl FnOnce() -> R) -> Result<(R, R), String> {
@@ -421,6 +422,40 @@ fn check(c: &Case, st: &mut Stats) -> Result<(), String> {
                 }
                 k.col_queries += 1;
             }
+            // packed sub-row / non-zero columns of the DENSE matrix from an arbitrary start column:
+            // the dense implementation states no precondition on start_col (the sparse one
+            // accepts the first dense column only), so every start column is inside the interface
+            // for it - in particular after a narrowing resize, when no dense tail is left
+            17 | 18 if world.num_dense == 0 || op.d % 4 == 0 => {
+                let row = pick(op.a, h);
+                let sc = match op.c % 4 {
+                    0 => w - (op.b as usize % (w.min(66) + 1)),
+                    1 => (w / 64) * 64,
+                    _ => pick(op.b, w + 1),
+                };
+                k.queries += 1;
+                if !world.defined(row, sc, w) {
+                    k.skipped_undefined += 1;
+                    continue;
+                }
+                if kind == 17 {
+                    name = format!("op {n}: dense get_sub_row_as_octets({row},{sc})");
+                    let want: Vec<u8> = (sc..w).map(|cc| (world.model[row][cc] == Tri::One) as u8).collect();
+                    let d = catch(|| unpack(&world.dense.get_sub_row_as_octets(row, sc))).map_err(|p| format!("{name}: dense panicked: {p}"))?;
+                    if d != want {
+                        return Err(format!("{name}: dense {d:?}, model {want:?}"));
+                    }
+                } else {
+                    name = format!("op {n}: dense query_non_zero_columns({row},{sc})");
+                    let want: Vec<usize> = (sc..w).filter(|&cc| world.model[row][cc] == Tri::One).collect();
+                    let mut d = catch(|| world.dense.query_non_zero_columns(row, sc)).map_err(|p| format!("{name}: dense panicked: {p}"))?;
+                    d.sort_unstable();
+                    if d != want {
+                        return Err(format!("{name}: dense {d:?}, model {want:?}"));
+                    }
+                }
+                k.dense_only_queries += 1;
+            }
             // packed sub-row / non-zero columns at the first dense column
             17 | 18 if world.num_dense >= 1 => {
                 let row = pick(op.a, h);
@@ -496,6 +531,7 @@ fn check(c: &Case, st: &mut Stats) -> Result<(), String> {
     st.class_n("op: full add", k.full_adds as u64);
     st.class_n("query: column ones", k.col_queries as u64);
     st.class_n("query: packed sub-row", k.sub_rows as u64);
+    st.class_n("query: dense-only packed sub-row / non-zero columns from an arbitrary start column", k.dense_only_queries as u64);
     st.class_n("queries", k.queries);
     st.class_n("queries skipped as undefined", k.skipped_undefined);
     st.class(match world.phase {
@@ -578,7 +614,7 @@ fn signature(_: &Case, msg: &str) -> String {
 }
 
 pub fn run(ctx: &Ctx, rep: &mut Report) {
-    rep.rule = "model-based: generated shape (width 2..=260 weighted to 63..66, 127..140, 191..200; height = width + 0..=70; trailing dense hint 1..=width-1 weighted to just below the 64/128/192-column boundaries; initial fill through set with generated density, in half the cases plus 1..3 heavy columns set in 7/8 of the rows so that column lists far longer than the mean exist) and 1..90 raw operation descriptors interpreted by the model into admissible operations of a three-phase protocol mirroring every precondition asserted in sparse_matrix.rs: construction (set, swap rows/columns, additions, queries), indexed (enable; swap rows; swap columns within the sparse part with a valid start-row hint; freeze the last sparse column; pivot elimination add(dest,src,0) when src has a single one in the sparse part and dest has it set; add(dest,src,first dense column); set in the dense part; count/iterate rows over the sparse part; ones of still-valid columns; packed sub-row and non-zero columns at the first dense column; get), un-indexed (disable; resize keeping width or dropping at least the dense tail, height >= width; unrestricted additions; set; queries). Oracle: a Vec<Vec<Tri>> with an undefined state (cells of dest left of start_col where src is non-zero after a partial addition); every query of BOTH implementations is compared with the model on defined cells, packed rows are unpacked by the harness, and all defined cells are scanned at the end. Non-trivial = sequence with a freeze that crosses a 64-column boundary of the dense tail, a resize, and a column swap after a row swap; distinct by (shape, op sequence).".into();
+    rep.rule = "model-based: generated shape (width 2..=260 weighted to 63..66, 127..140, 191..200; height = width + 0..=70; trailing dense hint 1..=width-1 weighted to just below the 64/128/192-column boundaries; initial fill through set with generated density, in half the cases plus 1..3 heavy columns set in 7/8 of the rows so that column lists far longer than the mean exist) and 1..90 raw operation descriptors interpreted by the model into admissible operations of a three-phase protocol mirroring every precondition asserted in sparse_matrix.rs: construction (set, swap rows/columns, additions, queries), indexed (enable; swap rows; swap columns within the sparse part with a valid start-row hint; freeze the last sparse column; pivot elimination add(dest,src,0) when src has a single one in the sparse part and dest has it set; add(dest,src,first dense column); set in the dense part; count/iterate rows over the sparse part; ones of still-valid columns; packed sub-row and non-zero columns at the first dense column - and, for the dense matrix alone, which states no precondition on it, from any start column in every phase, also after a narrowing resize; get), un-indexed (disable; resize keeping width or dropping at least the dense tail, height >= width; unrestricted additions; set; queries). Oracle: a Vec<Vec<Tri>> with an undefined state (cells of dest left of start_col where src is non-zero after a partial addition); every query of BOTH implementations is compared with the model on defined cells, packed rows are unpacked by the harness, and all defined cells are scanned at the end. Non-trivial = sequence with a freeze that crosses a 64-column boundary of the dense tail, a resize, and a column swap after a row swap; distinct by (shape, op sequence).".into();
     rep.assumptions.push("trailing dense hint >= 1 as in every caller (the solver passes P >= 10)".into());
     let n = ctx.tier.pick(200_000u64, 2_000_000);
     rep.absorb("model", run_sharded("C16", "model", ctx.seed, n, 32, strategy, check, to_json, signature));
